@@ -31,6 +31,7 @@ structure ConvertCoinFacts (env : Env) (O : Oracle σ) (w : World σ) (m : MsgCo
   receiver : Addr
   p : Pair
   hDenom : (validErc20Denom m.denom.s || validIBCDenom m.denom.s) = true
+  hNotHex : isHexAddress m.denom.s = false
   hAmt : 0 < m.amount
   hSender : m.sender.decode = .ok sender
   hReceiver : m.receiver.decode = .ok receiver
@@ -41,12 +42,14 @@ theorem convertCoin_ok {env : Env} {O : Oracle σ} {w w' : World σ} {m : MsgCon
     (h : convertCoin env O w m = .ok (w', r)) : Nonempty (ConvertCoinFacts env O w m w' r) := by
   unfold convertCoin at h
   obtain ⟨_, h1, h⟩ := bind_ok h
+  obtain ⟨_, hx, h⟩ := bind_ok h
   obtain ⟨_, h2, h⟩ := bind_ok h
   obtain ⟨sender, h3, h⟩ := bind_ok h
   obtain ⟨receiver, h4, h⟩ := bind_ok h
   obtain ⟨p, h5, h⟩ := bind_ok h
-  exact ⟨{ sender := sender, receiver := receiver, p := p, hDenom := ensure_ok h1,
-           hAmt := by simpa using ensure_ok h2, hSender := h3, hReceiver := h4, hGate := h5, hRest := h }⟩
+  have gx : isHexAddress m.denom.s = false := by simpa using ensure_ok hx
+  have ga : 0 < m.amount := by simpa using ensure_ok h2
+  exact ⟨⟨sender, receiver, p, ensure_ok h1, gx, ga, h3, h4, h5, h⟩⟩
 
 structure ConvertERC20Facts (env : Env) (O : Oracle σ) (w : World σ) (m : MsgConvertERC20) (w' : World σ) (r : Resp) where
   c : Addr
